@@ -193,4 +193,19 @@ example : ∃ r ∈ pos8, ∃ x : Dbl, RowOK 8 false r ∧ x.neg = false ∧ 0 <
   refine ⟨⟨10, 1, true, 6, 2, 0, 1⟩, by decide, ⟨false, 99999996, 10000000⟩, by decide, rfl, by decide, ?_⟩
   norm_num
 
+/-- non-vacuity of `sci_best_precision` and `last_branches_best_precision`: `x = 12340499.99995`
+satisfies the hypotheses of the first (its printed exponent `7` is `W − σ − 1`), `x = 1234567.4` and
+`x = -123456.4` those of the second. -/
+example : (∃ x : Dbl, 0 < x.num ∧ 0 < x.den ∧ x.den ≤ 10 ^ 999 * x.num ∧ x.num < 10 ^ 999 * x.den ∧
+      ((8 : ℤ) - (if x.neg then 1 else 0) - 1 ≤ sciExp sci8 x)) ∧
+    (∃ x : Dbl, x.neg = false ∧ 0 < x.den ∧ 2 * x.num < (2 * 10 ^ (8 - 1) - 1) * x.den ∧
+      (10 : ℚ) ^ (((8 - 1 : ℕ) : ℤ) - 1) ≤ (x.num : ℚ) / x.den) ∧
+    (∃ x : Dbl, x.neg = true ∧ 0 < x.den ∧ 2 * x.num < (2 * 10 ^ (8 - 2) - 1) * x.den ∧
+      (10 : ℚ) ^ (((8 - 2 : ℕ) : ℤ) - 1) ≤ (x.num : ℚ) / x.den) := by
+  refine ⟨⟨⟨false, 246809999999, 20000⟩, by decide, by decide, by decide +kernel, by decide +kernel, ?_⟩,
+    ⟨⟨false, 12345674, 10⟩, rfl, by decide, by decide, by norm_num⟩,
+    ⟨⟨true, 1234564, 10⟩, rfl, by decide, by decide, by norm_num⟩⟩
+  have hE : sciExp sci8 ⟨false, 246809999999, 20000⟩ = 7 := by decide +kernel
+  rw [hE]; norm_num
+
 end PyYetiVerif.C12
